@@ -779,11 +779,15 @@ class AdvURI(AdvDataField):
             except UnicodeDecodeError as err:
                 # Not a valid UTF-8 string
                 raise AdvDataError from err
-            if scheme_alias is not None:
-                scheme = AdvURI.get_scheme(scheme)
-                return AdvURI(f"{scheme}:{decoded_uri}")
+            try:
+                if scheme_alias is not None:
+                    scheme = AdvURI.get_scheme(scheme)
+                    return AdvURI(f"{scheme}:{decoded_uri}")
 
-            return AdvURI(f"<0x{scheme:04x}>:{decoded_uri}")
+                return AdvURI(f"<0x{scheme:04x}>:{decoded_uri}")
+            except ValueError as err:
+                # URI rejected by urlparse (e.g. unbalanced IPv6 brackets)
+                raise AdvDataError from err
         # Not enough data.
         return None
 
